@@ -210,6 +210,14 @@ void run_bigcase(const Op &op, int rank, int nprocs, const std::function<void(co
         MPI_Barrier(MPI_COMM_WORLD);
     };
     auto make_visible = [&]() { lib([&] { return ncmpi_sync(ncid); }); MPI_Barrier(MPI_COMM_WORLD); };
+    long long want_numrecs = 0;   // one plus the highest record index written by any access that was carried out
+    auto note_records = [&](const BigCase::Acc &a) { const BigCase::Var &v = c.vars[a.var]; if (v.dimids.empty() || v.dimids[0] != unlim) return; long long cnt = a.count[0]; if (cnt <= 0) return; for (auto x : a.count) if (x <= 0) return; long long hi = a.start[0] + (cnt - 1) * (a.mode == 2 ? a.stride[0] : 1) + 1; if (hi > want_numrecs) want_numrecs = hi; };
+    auto check_numrecs = [&](const char *when) {
+        if (unlim < 0) return;
+        MPI_Offset got = -1; int e2 = ncmpi_inq_dimlen(ncid, dimid[unlim], &got);
+        if (e2 != NC_NOERR || got != want_numrecs) fail("big-numrecs", std::string(when) + ": the record dimension reports " + std::to_string((long long)got) + " records, the highest record written so far is " + std::to_string(want_numrecs - 1));
+        if (rank == 0) { cdf::File d2; if (cdf::decode_header(ino->vis, d2) && d2.numrecs != want_numrecs) fail("big-numrecs", std::string(when) + ": the header in the file holds record count " + std::to_string(d2.numrecs) + ", expected " + std::to_string(want_numrecs)); }
+    };
     std::list<Prep> pend;   // posted, not yet waited for (list: the buffers must not move)
     auto complete_pending = [&]() {
         std::vector<int> reqs; for (auto &P : pend) if (P.iw && P.req != NC_REQ_NULL) reqs.push_back(P.req);
@@ -218,6 +226,8 @@ void run_bigcase(const Op &op, int rank, int nprocs, const std::function<void(co
         int bad = rc; for (size_t k = 0; k < reqs.size(); k++) if (bad == NC_NOERR) bad = stt[k];
         if (bad != NC_NOERR) fail("big-access", "wait_all after " + std::to_string(pend.size()) + " iput(s) failed: " + std::string(ncmpi_strerrno(bad)));
         make_visible();
+        for (auto &P : pend) note_records(c.acc[P.ai]);
+        check_numrecs("after wait_all + sync");
         for (auto &P : pend) verify(P);
         pend.clear();
     };
@@ -241,14 +251,14 @@ void run_bigcase(const Op &op, int rank, int nprocs, const std::function<void(co
                 const long long *st = P1.iw ? b.start.data() : a.start.data(), *ct = P0.iw ? a.count.data() : P1.iw ? b.count.data() : zc.data(); void *buf = P1.iw ? (void *)P1.wbuf.data() : (void *)P0.wbuf.data();
                 rc = lib([&] { return api_typed(K_PUT, F_VARA, true, ncid, varid[a.var], (const MPI_Offset *)st, (const MPI_Offset *)ct, nullptr, nullptr, buf, P0.mt, nullptr); });
                 if (rc != NC_NOERR) fail("big-access", "collective put with two writing ranks failed: " + std::string(ncmpi_strerrno(rc)));
-                make_visible(); verify(P0); verify(P1); ai++; continue;
+                make_visible(); note_records(a); note_records(b); check_numrecs("after a collective put + sync"); verify(P0); verify(P1); ai++; continue;
             }
         }
         {
             const long long *ct = P0.iw ? a.count.data() : zc.data();
             rc = lib([&] { return api_typed(K_PUT, P0.form, true, ncid, varid[a.var], (const MPI_Offset *)a.start.data(), (const MPI_Offset *)ct, (const MPI_Offset *)sd, nullptr, P0.wbuf.data(), P0.mt, nullptr); });
             if (rc != NC_NOERR) fail("big-access", "put of " + std::to_string(P0.n) + " element(s) of v" + std::to_string(a.var) + " failed: " + ncmpi_strerrno(rc));
-            make_visible(); verify(P0);
+            make_visible(); note_records(a); check_numrecs("after a collective put + sync"); verify(P0);
         }
     }
     if (!pend.empty()) complete_pending();
@@ -257,6 +267,7 @@ void run_bigcase(const Op &op, int rank, int nprocs, const std::function<void(co
     MPI_Barrier(MPI_COMM_WORLD);
     int ncid2 = -1; rc = lib([&] { return ncmpi_open(MPI_COMM_WORLD, path, NC_NOWRITE, MPI_INFO_NULL, &ncid2); });
     if (rc != NC_NOERR) { fail("big-reopen", "ncmpi_open of the file just written with accepted definitions failed: " + std::string(ncmpi_strerrno(rc))); return; }
+    if (unlim >= 0) { MPI_Offset got = -1; int ud = -1; ncmpi_inq_unlimdim(ncid2, &ud); if (ud >= 0) ncmpi_inq_dimlen(ncid2, ud, &got); if (got != want_numrecs) fail("big-numrecs", "after close and reopen the record dimension reports " + std::to_string((long long)got) + " records, expected " + std::to_string(want_numrecs)); }
     int nv2 = -1; ncmpi_inq_nvars(ncid2, &nv2); if (nv2 != (int)c.vars.size()) fail("big-reopen", "reopened file reports " + std::to_string(nv2) + " variables");
     for (size_t i = 0; i < d.vars.size() && (int)i < nv2; i++) { MPI_Offset off = -1; ncmpi_inq_varoffset(ncid2, (int)i, &off); if (off != d.vars[i].begin) fail("big-reopen", "after reopen ncmpi_inq_varoffset(v" + std::to_string(i) + ") = " + std::to_string((long long)off) + " but the header says " + std::to_string(d.vars[i].begin)); }
     lib([&] { return ncmpi_close(ncid2); });
